@@ -24,7 +24,8 @@ def seeded_table():
 
 def benign_table():
     m = json.load(open(V + "/selftest/benign/matrix.json"))
-    groups = [("hand-written (b01–b18)", "b"), ("agent-written round 1 (aCxx_n; used to drive the rework)", "a"), ("agent-written round 2 (cCxx_n; written after the rework)", "c")]
+    groups = [("hand-written (b01–b18)", "b"), ("agent-written round 1 (aCxx_n; used to drive the rework)", "a"), ("agent-written round 2 (cCxx_n; written after the rework, 'be creative')", "c"),
+              ("agent-written round 3 (dCxx_n; 'realistic maintainer changes')", "d")]
     out = ["| suite | variants | silent on all 20 checks | alarming |", "|---|---|---|---|"]
     for title, pre in groups:
         names = sorted(k for k in m if k.startswith(pre))
